@@ -9,6 +9,8 @@ from . import REGISTRY
 
 
 def main():
+    import warnings
+    warnings.simplefilter("ignore")
     if sys.argv[1] == "--call":
         mod, fn = sys.argv[2].split(":")
         r = getattr(importlib.import_module(mod), fn)()
